@@ -103,6 +103,9 @@ class Interp:
         self.all_insts = []
         self.assume = {}  # tag -> bool for conditions the context fixes
         self.strict_shapes = True
+        self.sticky = False  # one outcome per branch site per path (coarser partition, fewer paths)
+        self.sticky_memo = {}
+        self.stubs = {}  # qualname -> fn(interp, func, args, kwargs, node) -> V
         from . import ops
 
         self.ops = ops
@@ -151,6 +154,7 @@ class Interp:
         elif isinstance(obj, str):
             origins.add(obj)
         e = Effect(kind, obj, frozenset(origins), self.site(node), self.cur_qual(), detail, tuple(self.stack))
+        e.lines = tuple((fr.func.qualname, getattr(fr, "cur_line", 0)) for fr in self.frames if fr.func is not None)
         self.effects.append(e)
         return e
 
@@ -158,12 +162,19 @@ class Interp:
         """known: True/False/None.  Unknown -> consult the decision vector."""
         if known is not None:
             return bool(known)
+        skey = None
+        if self.sticky:
+            skey = (self.site(node), desc or (ast.unparse(node) if node is not None else "?"))
+            if skey in self.sticky_memo:
+                return self.sticky_memo[skey]
         k = len(self.taken)
         if k < len(self.decisions):
             out = self.decisions[k]
         else:
             out = True
         self.taken.append(out)
+        if skey is not None:
+            self.sticky_memo[skey] = out
         self.conds.append((self.site(node), desc or (ast.unparse(node) if node is not None else "?"), out))
         if len(self.taken) > 40:
             raise PathBudget("too many undecided branches on one path")
@@ -260,6 +271,7 @@ class Interp:
             self.exec_stmt(st)
 
     def exec_stmt(self, st):
+        self.frames[-1].cur_line = getattr(st, "lineno", 0)
         m = getattr(self, "st_" + type(st).__name__, None)
         if m is None:
             raise Unsupported("statement %s" % type(st).__name__, st, self.site(st))
@@ -541,8 +553,9 @@ class Interp:
             return
         # ---- generic iteration with placeholders
         carried_syms = {}
-        for o in mutated:
-            s = "carry:T%d@%s" % (o.id, sid)
+        mutated.sort(key=lambda o: o.id)
+        for k_, o in enumerate(mutated):
+            s = "carry:%d@%s" % (k_, sid)
             carried_syms[o] = s
             o.term = T.sym(s)
         for n in assigned:
@@ -941,6 +954,11 @@ class Interp:
                         args[a] = self.ops.tensor_method(self, args[a], "unsqueeze", [VConst(0)], {}, node)
                 elif a < len(args) and isinstance(args[a], VUnknown):
                     pass
+        if func.qualname in self.stubs:
+            env = self.bind(func, args, kwargs, node)
+            result = self.stubs[func.qualname](self, func, env, node)
+            self.calls.append([func.qualname, list(args), dict(kwargs), self.site(node), result, env, snapshot_terms(self, result)])
+            return result
         result = self._invoke(func, args, kwargs, node, fv)
         if unsqueezed:
             if isinstance(result, VTens):
@@ -965,6 +983,7 @@ class Interp:
             self.stack.pop()
             self.frames.pop()
         rec[4] = ret
+        rec.append(snapshot_terms(self, ret))
         return ret
 
     def call_lambda(self, fv, args, kwargs, node):
@@ -1299,6 +1318,19 @@ class Interp:
 
 
 # ------------------------------------------------------------------------------ helpers
+def snapshot_terms(it, v):
+    """Terms of a returned value at return time (later in-place updates do not change the record)."""
+    if isinstance(v, VTens):
+        return v.term
+    if isinstance(v, (VList, VTuple)):
+        items = it.concrete_items(v)
+        if items is not None:
+            return [snapshot_terms(it, x) for x in items]
+    if isinstance(v, (VNum, VConst)):
+        return num_term(v)
+    return None
+
+
 def _load(t):
     import copy
 
